@@ -111,11 +111,15 @@ CHECKS = {
                    "Call-site condition 'an op is sent to a node at most once while un-acked' is an unproved precondition. The dispatcher's ack / rp handlers are glue.",
     ),
     "C10": dict(
-        engine="verus-units", design_ref="DESIGN.md §5 C10", technique="deductive verification (Verus/Z3): absence of overflow / unwrap-on-None / OOB in extracted real code",
-        text="Partial: for every client-reachable function under contract, Verus proves absence of arithmetic overflow, failed unwrap and out-of-bounds access for ALL "
-             "client-controlled arguments (no precondition restricts versions, increments, keys or values).",
-        level_note="Only the functions listed in the evidence are covered. Transport loops, dispatcher unwraps, parser panics outside the Kani harnesses and lock "
-                   "poisoning propagation are NOT decided. Panics inside log:: arguments are invisible (R1).",
+        engine="verus-units", design_ref="DESIGN.md §5 C10", technique="deductive verification (Verus/Z3): absence of overflow / unwrap-on-None-or-Err / out-of-bounds in extracted real code, for all inputs",
+        text="Partial but unbounded: every function under contract in the store, consensus, security, ids, oplog and pending units is proved free of arithmetic "
+             "overflow, failed unwrap and out-of-bounds access with NO precondition on client-controlled values (versions, increments, keys, values, op ids), and "
+             "31 of the 33 command parsers of parse_request.rs are proved to return Ok or Err for EVERY token stream (the token iterator is modelled as returning "
+             "arbitrary tokens), so no parser can panic on any input line. A bounded native sweep sends ~1000 hostile command lines through process_request and "
+             "probes the node from a second client afterwards.",
+        level_note="Covers only the functions listed in the evidence. NOT decided: transport loops, the dispatcher's own unwraps, Request::parse's table lookup, "
+                   "the two snapshot parsers, lock poisoning propagation, panics inside log:: arguments. str/String methods used by the parsers (replace, splitn, "
+                   "parse, from_str_radix, format!) are trusted never to panic.",
     ),
 }
 
